@@ -230,6 +230,7 @@ static std::vector<std::vector<std::string>> hhistories(int k, bool thorough)
         {S(k), "D", S(k + 10)},
         {S(k), "Q", S(k), S(k + 40)},
         {"SB", "C", S(k)},
+        {S(k), "S0"},  // resumed with an already-expired condition
     };
     if (thorough)
     {
